@@ -429,6 +429,7 @@ func TestDrive_C01(t *testing.T) {
 			}
 			flagScenarios(rng, n, add)
 			cancelAfterEarlierTimeout(rng, n/2, add)
+			abortWhileExhausted(rng, n/2, add)
 		})
 }
 
@@ -451,6 +452,7 @@ func TestDrive_C02(t *testing.T) {
 					add(inst, reqs, "retry-in-stack")
 				}
 			}
+			abortWhileExhausted(rng, n/5, add)
 		})
 }
 
@@ -465,6 +467,40 @@ func TestDrive_C10(t *testing.T) {
 			}
 			cancelledHandledResult(rng, n, false, add)
 		})
+}
+
+// a retry policy with an abort condition whose budget runs out on exactly the attempt that also matches the abort condition
+// (documented: the policy still reports ExceededError), alone and inside policies that handle ErrExceeded
+func abortWhileExhausted(rng *Rng, n int, add func(InstD, []ReqD, string)) {
+	for i := 0; i < n; i++ {
+		g := &instGen{}
+		k := int64(rng.Intn(3))
+		rp := PolD{K: "Retry", MaxRetries: k, Delay: genDelay(rng), ReturnLast: rng.Chance(25),
+			Abort: []CallD{Pick(rng, []CallD{{K: "Errors", Errs: []ErrD{sent(1)}}, {K: "Result", R: 7}})}}
+		if rp.Abort[0].K == "Result" {
+			rp.Handle = []CallD{{K: "Result", R: 7}, {K: "Errors", Errs: []ErrD{sent(0)}}}
+		}
+		stack := []PolD{rp}
+		switch rng.Intn(4) {
+		case 0:
+			stack = append([]PolD{{K: "Fallback", FBKind: "Result", FBR: 3, Handle: []CallD{{K: "Errors", Errs: []ErrD{{K: "RetryExceeded"}}}}}}, stack...)
+		case 1:
+			stack = append([]PolD{genPolicy(rng, "Breaker", 0, g)}, stack...)
+		case 2:
+			stack = append([]PolD{{K: "Retry", MaxRetries: 1, Handle: []CallD{{K: "Errors", Errs: []ErrD{{K: "RetryExceeded"}}}}}}, stack...)
+		}
+		var script []FnStepD
+		for j := int64(0); j < k; j++ {
+			script = append(script, FnStepD{Out: OutD{Err: &ErrD{K: "Sent", A: 0}}, Dur: genDur(rng)})
+		}
+		last := FnStepD{Out: OutD{Err: &ErrD{K: "Sent", A: 1}}, Dur: genDur(rng)}
+		if rp.Abort[0].K == "Result" {
+			last.Out = OutD{R: 7}
+		}
+		script = append(script, last, FnStepD{Out: OutD{R: 1}, Dur: 512})
+		rq := ReqD{Stack: stack, CtxKey: -1, Entry: Pick(rng, []string{"Get", "GetWithExecution", "GetAsync", "GetWithExecutionAsync"}), Script: script}
+		add(g.inst, []ReqD{rq, rq}, "abort-while-exhausted")
+	}
 }
 
 // the execution is cancelled while the function -- which ignores the cancellation -- runs; it then returns a plain result
@@ -601,6 +637,7 @@ func TestDrive_C16(t *testing.T) {
 				n = 800
 			}
 			limiterWaitScenarios(rng, n, add)
+			abortWhileExhausted(rng, n, add)
 		})
 }
 
